@@ -82,6 +82,7 @@ type Interp struct {
 	funcsSeen map[*ssa.Function]bool
 	models    map[string]int
 	assumes   map[string]bool
+	sch       schedState
 }
 
 func (in *Interp) fresh(prefix string, w int) *Term {
@@ -436,6 +437,10 @@ func (fr *frame) exec(instr ssa.Instruction) cont {
 		panic(goPanic{fr.get(instr.X)})
 	case *ssa.Send:
 		ch := fr.get(instr.Chan).(*hchan)
+		if in.sch.on {
+			in.schedSend(fr, ch, fr.get(instr.X))
+			break
+		}
 		if ch == nil {
 			panic(unsupported("send on nil channel blocks forever"))
 		}
@@ -461,7 +466,7 @@ func (fr *frame) exec(instr ssa.Instruction) cont {
 		fn, args := in.prepareCall(fr, &instr.Call)
 		in.spawn(fr, fn, args)
 	case *ssa.MakeChan:
-		fr.env[instr] = &hchan{}
+		fr.env[instr] = &hchan{cap: in.concreteInt(fr.get(instr.Size), "channel capacity")}
 	case *ssa.Alloc:
 		p := new(value)
 		*p = in.zero(deref(instr.Type()))
@@ -518,6 +523,9 @@ func (fr *frame) exec(instr ssa.Instruction) cont {
 		}
 		key := fr.get(instr.Key)
 		k := in.mapKey(m, key)
+		if in.sch.race != nil {
+			in.raceWrite(m)
+		}
 		m.set(k, key, copyVal(fr.get(instr.Value)))
 	case *ssa.TypeAssert:
 		fr.env[instr] = in.typeAssert(instr, fr.get(instr.X).(iface))
@@ -535,7 +543,11 @@ func (fr *frame) exec(instr ssa.Instruction) cont {
 			}
 		}
 	case *ssa.Select:
-		fr.env[instr] = in.selectOp(fr, instr)
+		if in.sch.on {
+			fr.env[instr] = in.schedSelectOp(fr, instr)
+		} else {
+			fr.env[instr] = in.selectOp(fr, instr)
+		}
 	default:
 		panic(unsupported(fmt.Sprintf("instruction %T", instr)))
 	}
@@ -567,6 +579,9 @@ func (in *Interp) load(p value) value {
 		if p == nil {
 			in.rtPanic("invalid memory address or nil pointer dereference")
 		}
+		if in.sch.race != nil {
+			in.raceRead(p)
+		}
 		return copyVal(*p)
 	case *symRef:
 		return in.selectElem(p.elems, p.idx)
@@ -595,6 +610,9 @@ func (in *Interp) store(addr value, v value) {
 	case *value:
 		if p == nil {
 			in.rtPanic("invalid memory address or nil pointer dereference")
+		}
+		if in.sch.race != nil {
+			in.raceWrite(p)
 		}
 		*p = copyVal(v)
 		return
@@ -755,6 +773,9 @@ func (in *Interp) lookup(instr *ssa.Lookup, x, key value) value {
 		vt := under(instr.X.Type()).(*types.Map).Elem()
 		var v value
 		ok := false
+		if in.sch.race != nil && x != nil {
+			in.raceRead(x)
+		}
 		if x != nil && x.len() > 0 {
 			k := in.mapKey(x, key)
 			if e, found := x.get(k); found {
@@ -870,6 +891,13 @@ func (in *Interp) unop(fr *frame, instr *ssa.UnOp) value {
 	case token.ARROW:
 		ch := x.(*hchan)
 		et := under(instr.X.Type()).(*types.Chan).Elem()
+		if in.sch.on {
+			v, ok := in.schedRecv(fr, ch, et)
+			if instr.CommaOk {
+				return tuple{v, in.ts.Bool(ok)}
+			}
+			return v
+		}
 		if ch == nil {
 			panic(unsupported("receive from nil channel blocks forever"))
 		}
@@ -978,10 +1006,14 @@ func (in *Interp) callSSA(fr *frame, fn *ssa.Function, args []value, env []value
 }
 
 func (in *Interp) spawn(fr *frame, fn value, args []value) {
-	// No concurrency semantics: the goroutine is run to completion at the spawn point.
 	if f, ok := fn.(*ssa.Function); ok && in.P.skipGo(f) {
 		return
 	}
+	if in.sch.on {
+		in.spawnGor(fr, fn, args)
+		return
+	}
+	// No concurrency semantics: the goroutine is run to completion at the spawn point.
 	in.noteAssumption("goroutines are sequentialised: `go f()` runs f to completion at the spawn point")
 	defer func() {
 		if r := recover(); r != nil {
@@ -1089,6 +1121,9 @@ func (in *Interp) callBuiltin(fr *frame, fn *ssa.Builtin, args []value, call *ss
 		}
 	case "delete":
 		m := args[0].(*hmap)
+		if in.sch.race != nil && m != nil {
+			in.raceWrite(m)
+		}
 		if m != nil && m.len() > 0 {
 			if k, ok := keyOf(args[1]); ok {
 				m.del(k)
@@ -1126,6 +1161,10 @@ func (in *Interp) callBuiltin(fr *frame, fn *ssa.Builtin, args []value, call *ss
 		return in.doRecover(fr)
 	case "close":
 		ch := args[0].(*hchan)
+		if in.sch.on {
+			in.schedClose(ch)
+			return nil
+		}
 		if ch == nil {
 			in.rtPanic("close of nil channel")
 		}
